@@ -4,9 +4,14 @@ package sim
 
 import (
 	"bytes"
+	"context"
 	"encoding/json"
 	"errors"
 	"fmt"
+	"github.com/go-logr/logr"
+	"github.com/wrgl/wrgl/pkg/ingest"
+	"github.com/wrgl/wrgl/pkg/sorter"
+	"io"
 	"os"
 	"strings"
 	"syscall"
@@ -29,6 +34,9 @@ type C02Plan struct {
 	MutRow   int          `json:"mut_row"`
 	MutCol   int          `json:"mut_col"`
 	OldMtime bool         `json:"old_mtime"` // cli: set the rewritten file's mtime before the commit time
+	// Interleave (lib): both presentations are sorted (and spilled) by two sorters that are alive at the same
+	// time in one process, then each is ingested: the identifiers must be what each gets alone
+	Interleave bool `json:"interleave,omitempty"`
 }
 
 func genPresentation(r *Rand) Presentation {
@@ -55,6 +63,7 @@ func init() {
 			p.Mutation = Pick(r, []string{"cell", "cell", "colname", "swapcols", "pk", "none"})
 			p.MutRow, p.MutCol = r.Intn(1000), r.Intn(8)
 			p.OldMtime = r.Chance(0.5)
+			p.Interleave = p.Kind == "lib" && r.Chance(0.2)
 			return p
 		},
 		Exec: execC02,
@@ -147,6 +156,24 @@ func execC02(t *testing.T, raw json.RawMessage, res *Result) {
 			res.Violate("reingest-adds-objects", "re-ingesting the same table into the same store added %d objects", after-before)
 			return
 		}
+	}
+	if p.Interleave && p.B.Cfg.FsizeLimit == 0 {
+		sums, err := interleavedIngest(stA, [][]byte{CSVText(cols, permuteRows(rows, p.A.Perm), da), CSVText(cols, permuteRows(rows, p.B.Perm), db)}, pkNames, []IngestCfg{p.A.Cfg, p.B.Cfg})
+		if err != nil {
+			res.Violate("ingest-error", "two sorters alive at once: %v", err)
+			return
+		}
+		for i, sm := range sums {
+			if !bytes.Equal(sm, ra.Sum) {
+				res.Violate("identity-differs", "presentation %d sorted while another sorter of the same process held its spill files: id %x, alone %x", i, sm, ra.Sum)
+				return
+			}
+		}
+		if n := countTmp(); n > 0 {
+			res.Violate("spill-file-left", "%d files left in TMPDIR after both sorters were closed", n)
+			return
+		}
+		res.probe("two_sorters_alive_at_once", 1)
 	}
 	// one mutation must change the identifier
 	mcols := append([]string(nil), cols...)
@@ -317,4 +344,46 @@ func execC02CLI(t *testing.T, p *C02Plan, cols, pk []string, rows [][]string, re
 
 func isFileTooLarge(err error) bool {
 	return err != nil && (errors.Is(err, syscall.EFBIG) || strings.Contains(err.Error(), "file too large"))
+}
+
+// interleavedIngest sorts every text with a sorter of its own first (spilling as its run size says), and only
+// then ingests them one after the other: all sorters hold their spill files at the same time.
+func interleavedIngest(st *Store, texts [][]byte, pk []string, cfgs []IngestCfg) ([][]byte, error) {
+	var sorters []*sorter.Sorter
+	defer func() {
+		for _, s := range sorters {
+			s.Close()
+		}
+	}()
+	for i, text := range texts {
+		rs := cfgs[i].RunSize
+		if rs == 0 {
+			rs = 1 << 40
+		}
+		delim, _ := delimRune(cfgs[i].Delim)
+		s, err := sorter.NewSorter(sorter.WithRunSize(rs), sorter.WithDelimiter(delim))
+		if err != nil {
+			return nil, err
+		}
+		sorters = append(sorters, s)
+		if err := s.SortFile(io.NopCloser(bytes.NewReader(text)), pk); err != nil {
+			return nil, err
+		}
+	}
+	var sums [][]byte
+	for _, s := range sorters {
+		errCh := make(chan error, 1)
+		blocks := s.SortedBlocks(context.Background(), nil, errCh)
+		sum, err := ingest.IngestTableFromBlocks(st, s, s.Columns, s.PK, blocks, logr.Discard(), ingest.WithNumWorkers(1))
+		if err != nil {
+			return nil, err
+		}
+		select {
+		case e := <-errCh:
+			return nil, e
+		default:
+		}
+		sums = append(sums, sum)
+	}
+	return sums, nil
 }
